@@ -1753,7 +1753,11 @@ impl Connection {
     fn detect_lost_packets(&mut self, now: Instant, pn_space: SpaceId, due_to_ack: bool) {
         let mut lost_packets = Vec::<u64>::new();
         let mut lost_mtu_probe = None;
-        let in_flight_mtu_probe = self.path.mtud.in_flight_mtu_probe();
+        // MTU probes are 1-RTT packets: a packet with the same number in another space is not one
+        let in_flight_mtu_probe = match pn_space {
+            SpaceId::Data => self.path.mtud.in_flight_mtu_probe(),
+            _ => None,
+        };
         let rtt = self.path.rtt.conservative();
         let loss_delay = cmp::max(rtt.mul_f32(self.config.time_threshold), TIMER_GRANULARITY);
 
